@@ -52,3 +52,11 @@ def polars_values_container(case):
 
 def row_selection_without_input_index(case):
     return case.get("op") in ("head", "tail", "nth")
+
+
+def single_bool_key(case):
+    return case.get("kinds") == ["bool"]
+
+
+def c12_str_or_dt_keys(case):
+    return case.get("keykind", "").split("_")[0] in ("str", "dt")
